@@ -31,6 +31,19 @@ func (w *World) bls(rule string) *blsAnchors {
 		return nil
 	}
 	bf := boolFieldNames(a.pubT)
+	if len(bf) > 1 {
+		// several boolean fields: the identity flag is the one written from the infinity / zero predicate (by name when
+		// the key type gained other cached booleans)
+		var ids []string
+		for _, n := range bf {
+			if strings.Contains(strings.ToLower(n), "identity") || strings.Contains(strings.ToLower(n), "infinity") {
+				ids = append(ids, n)
+			}
+		}
+		if len(ids) == 1 {
+			bf = ids
+		}
+	}
 	if len(bf) != 1 {
 		w.undecided(rule, "anchor:identity-flag", a.pubT.Obj().Pos(), fmt.Sprintf("unresolved anchor: expected exactly one bool field in %s, found %v", a.pubT.Obj().Name(), bf))
 		return nil
@@ -137,6 +150,10 @@ func ruleC01(w *World) {
 	w.floor("C01.R10", 1)
 	w.ruleFreshResult("C01.R10", a.sign, 0, "signature")
 	w.ruleIdentityFlag("C01.R4", a)
+	// R16: the hasher Sign / Verify are handed is a function of (key, message): KMAC's ComputeHash works on a clone that
+	// is reset and re-keyed, Reset re-absorbs the key block into the object's own state (= C13.R2 call sequences)
+	w.floor("C01.R16", 3)
+	w.ruleKmacSequences("C01.R16")
 	w.floor("C01.R13", 1)
 	w.ruleSigContent("C01.R13", a.verify, 1)
 	// R15: hashing a message only reads it: no ComputeHash / Write of the hash package writes memory reachable from its
@@ -1721,6 +1738,10 @@ func ruleC16(w *World) {
 	// (exact signature length, hasher, identity flag, arguments handed to C unchanged) = C01.R2 on Verify — a candidate
 	// PoP string of another length, or whose prefix is a PoP, is not a PoP
 	w.floor("C16.R7", 4)
+	// R12: a key object does not accumulate verdicts: no field of an existing key is written by the PoP functions or
+	// anything else (= C12.R6) — a cached "this key has a valid PoP" answers true for every later candidate string
+	w.floor("C16.R12", 6)
+	w.ruleKeyImmutability("C16.R12")
 	w.floor("C16.R8", 2)
 	w.ruleSigContent("C16.R8", a.verify, 1)
 	w.ruleSigContent("C16.R8", w.fn(rootPath, "BLSVerifyPOP"), 1)
